@@ -15,12 +15,12 @@ CLAUSE_PROP = {
     "S_ok": "C05", "S_fit": "C05", "K_notstuck": "C05", "E_delivered": "C05",
     "S_seq": "C08", "S_retry": "C07", "B_seq": "C08", "B_ack": "C08", "V_win": "C08", "V_acked": "C08", "V_mcur": "C08",
     "B_size": "C09", "B_count": "C09", "B_together": "C09", "B_noraise": "C09", "E_left": "C09",
-    "B_sealed": "C03", "B_aad": "C03", "B_sec": "C03", "B_rate": "C03", "B_dir": "C03",
+    "B_sealed": "C03", "B_aad": "C03", "F_noeffect": "C01", "B_sec": "C03", "B_rate": "C03", "B_dir": "C03",
     "R_pend": "C07", "R_time": "C07", "R_cbs": "C07", "R_true": "C07", "E_cb": "C07",
     "V_noraise": "C06", "V_accept": "C04", "V_dropwhole": "C04", "V_counted": "C04", "V_deliver": "C04", "V_once": "C04",
 }
 # clauses that more than one property relies on
-ALSO = {"B_known": ("C04", "C05", "C07"), "V_exact": ("C04",), "E_left": ("C05", "C07"), "K_notstuck": ("C09",), "S_fit": ("C09",), "V_accept": ("C08",), "V_deliver": ("C06",), "S_ok": ("C09",), "B_seq": ("C03",)}
+ALSO = {"B_known": ("C04", "C05", "C07"), "V_exact": ("C04",), "E_left": ("C05", "C07"), "K_notstuck": ("C09", "C07", "C06"), "S_fit": ("C09", "C07", "C06"), "V_accept": ("C08",), "V_deliver": ("C06",), "S_ok": ("C09",), "B_seq": ("C03",)}
 
 
 def props_of(clause):
@@ -230,3 +230,47 @@ def lateness_sweep(ctx, mine, lates, starts=(None, 65500, 65530)):
         ctx.evaluations += len(t)
     ctx.extra["lateness_sweep"] = "%d schedules, lateness %d..%d" % (len(jobs), min(lates), max(lates))
     report(ctx, rej, traces, lambda tid: names[tid - 1], mine)
+
+
+def _schedule(args):
+    """Run the real endpoints under one TLC-enumerated environment schedule."""
+    sc, seed = args
+    w = W.ConnWorld()
+    try:
+        plan = {}
+        for p in sc["plan"]:
+            plan.setdefault((p["tick"], "c"), []).append((p["len"], p["retry"], True))
+        fates = {}
+        for side in ("c", "s"):
+            for k, f in enumerate(sc[side]):
+                fates[(side, k + 1)] = list(f)
+        pol = W.ScriptPolicy(sends=plan, fates=fates, default_fate=(0,))
+        return w.run(pol, 150, heal_after=90, quiesce_ticks=300)
+    finally:
+        w.close()
+
+
+def schedule_sweep(ctx, mine, quick):
+    """Binding R, environment-schedule mode: TLC enumerates every schedule of the bounded space (specs/Net.tla); each is executed on the real
+    endpoints and the recorded execution judged by Trace_Conn."""
+    import tlc as T2
+    from concurrent.futures import ProcessPoolExecutor
+    wd = T2.workdir("net")
+    try:
+        out = os.path.join(wd, "schedules.json")
+        cfgtxt = "INIT GenInit\nNEXT Next\nCONSTANTS\n NDatagrams = %d\n Fates <- %s\n Plans <- PlansDef\nCHECK_DEADLOCK FALSE\n" % (2 if quick else 3, "FatesQuick" if quick else "FatesThorough")
+        g = ctx.mc("MC_Net", cfgtxt, env=dict(OUT_FILE=out), coverage=False, workers=1, count=False, label="Net: schedule space")
+        if not g.ok or not os.path.exists(out):
+            raise Machinery("schedule generation failed: %s" % (g.violation,))
+        scheds = json.load(open(out))["schedules"]
+    finally:
+        shutil.rmtree(wd, ignore_errors=True)
+    with ProcessPoolExecutor(16) as ex:
+        traces = list(ex.map(_schedule, [(s, ctx.seed) for s in scheds], chunksize=8))
+    rej, r = judge(ctx, traces, "Trace_Conn %s schedule sweep (%d TLC-enumerated schedules)" % (mine, len(scheds)), stale=True, ctxdev=True)
+    ctx.traces += len(traces) - len({x["tid"] for x in rej})
+    ctx.evaluations += sum(len(t) for t in traces)
+    ctx.distinct_n += len(scheds)
+    ctx.extra["schedule_sweep"] = "%d schedules (every fate assignment of the first %d datagrams of each side x %d send plans), exhaustive in the bound" % (len(scheds), 2 if quick else 3, 6)
+    ctx.sample(dict(kind="schedule", schedule=scheds[len(scheds) // 2]))
+    report(ctx, rej, traces, lambda tid: "schedule %s" % json.dumps(scheds[tid - 1]), mine)
